@@ -401,26 +401,35 @@ class Walker:
         gm = len(self.guards)
         sv, sc = self.ev(n['scrut'], pc)
         pc1 = And(pc, sc)
-        earlier = []
+        earlier = []     # (formula, simple-variant-name or None)
         conts = []
+        all_cont = True
         val = None
         for a in n['arms']:
             m = self.bind(a['pat'], sv, pc1)
-            eff = And(m, *[Not(e) for e in earlier])
+            simple = _simple_variant(a['pat'])
+            # an earlier arm testing a *different* variant of the same scrutinee is excluded by the
+            # variant-exclusivity axiom already; only the others need an explicit negation
+            negs = [Not(e) for (e, sv_name) in earlier
+                    if not (simple is not None and sv_name is not None and sv_name != simple)]
+            eff = And(m, *negs)
             if 'guard' in a:
                 gv, gc = self.ev(a['guard'], And(pc1, eff))
                 g = as_formula(gv)
                 eff_g = And(eff, g)
-                earlier.append(And(m, g))
+                earlier.append((And(m, g), None))
             else:
                 eff_g = eff
-                earlier.append(m)
+                earlier.append((m, simple))
             bv, bc = self.ev(a['body'], And(pc1, eff_g))
             conts.append(And(eff_g, bc))
+            if bc != T:
+                all_cont = False
             if bc != F:
                 val = bv if val is None else mk_ite(eff_g, bv, val)
         del self.guards[gm:]
-        return (val if val is not None else ('never',)), And(sc, taut(Or(*conts)))
+        cont = sc if all_cont else And(sc, taut(Or(*conts)))
+        return (val if val is not None else ('never',)), cont
 
     def ev_Loop(self, n, pc):
         self.loops.append(('loop', n.get('hid'), None, n))
@@ -465,6 +474,9 @@ class Walker:
         v, c = self.ev(n['e'], pc)
         self.emit('try', n, pc, value=v)
         return payload(v, 'Ok') if v is not None else ('unit',), c
+
+    def ev_Trace(self, n, pc):
+        return ('unit',), T
 
     def ev_Yield(self, n, pc):
         return ('unit',), T
@@ -999,6 +1011,21 @@ class Walker:
         if self.inline_pred is not None:
             return self.inline_pred(path)
         return False
+
+
+def _simple_variant(p):
+    """variant name if p is `Variant(..)` / `&Variant{..}` whose sub-patterns are irrefutable bindings"""
+    while p.get('k') == 'DerefPat':
+        p = p['sub']
+    if p.get('k') != 'Variant':
+        return None
+    for f in p['fields']:
+        q = f['p']
+        while q.get('k') == 'DerefPat':
+            q = q['sub']
+        if q.get('k') not in ('Bind', 'Wild') or 'sub' in q:
+            return None
+    return p['variant']
 
 
 def _boolify(t):
